@@ -536,7 +536,7 @@ class Builder:
         rng = self.rng
         name = self.fresh(NAME_POOL, taken, enclosing)
         n = rng.choice([1, 2, 3, 3, 4, 7, 8, 8, 9, 16, 32, 64])
-        k = rng.randint(0 if rng.random() < 0.05 else 1, min(5, 1 << n))
+        k = rng.randint(0 if (rng.random() < 0.05 and not self.p.py_safe) else 1, min(5, 1 << n))
         vals: List[int] = []
         first_zero = rng.random() < 0.8
         while len(vals) < k:
